@@ -213,21 +213,22 @@ fn hint_src(ty: &Type) -> Option<String> {
             inferred_type: Some(inferred_type),
             ..
         } => hint_src(inferred_type),
-        _ if contains_error(ty) => None,
+        _ if contains_any_or_error(ty) => None,
         _ => Some(ty.to_string()),
     }
 }
 
-/// Does `ty` have an error type anywhere inside it?
-fn contains_error(ty: &Type) -> bool {
+/// Does `ty` have `Any` or an error type anywhere inside it? Neither
+/// can be written as a type hint.
+fn contains_any_or_error(ty: &Type) -> bool {
     match ty {
-        Type::Error { .. } => true,
-        Type::Tuple(items) => items.iter().any(contains_error),
+        Type::Any | Type::Error { .. } => true,
+        Type::Tuple(items) => items.iter().any(contains_any_or_error),
         Type::Fun {
             params, return_, ..
-        } => params.iter().any(contains_error) || contains_error(return_),
-        Type::UserDefined { args, .. } => args.iter().any(contains_error),
-        Type::Any | Type::TypeParameter(_) => false,
+        } => params.iter().any(contains_any_or_error) || contains_any_or_error(return_),
+        Type::UserDefined { args, .. } => args.iter().any(contains_any_or_error),
+        Type::TypeParameter(_) => false,
     }
 }
 
